@@ -122,6 +122,14 @@ theorem decU64_length {bs : Bytes} {n : Nat} {r : Bytes} (h : decU64 bs = some (
       have := decU32_length h1; have := decU32_length h2
       rw [← h.2]; omega
 
+/-- strings.Split(s, sep) for a one-byte separator -/
+def splitOnByte (sep : UInt8) : Bytes → List Bytes
+  | [] => [[]]
+  | b :: bs =>
+    match splitOnByte sep bs with
+    | [] => [[b]]
+    | cur :: rest => if b = sep then [] :: cur :: rest else (b :: cur) :: rest
+
 /-! Hex I/O for the line-protocol driver (not used in theorems). -/
 
 def hexDigit (n : Nat) : Char :=
